@@ -227,7 +227,7 @@ def check(model, rep, tier):
                {'tainted_names': sorted(t.tainted)})
     for n, what in t.edits:
       rep.violation(
-          'SRC-TEXT', '%s:%s' % (fi.site, core.norm(n)[:60]),
+          'SRC-TEXT', '%s:%s' % (fi.site, _param_free(fi, n)[:60]),
           '%s: the edit is applied to the whole text without regard to token '
           'boundaries, so it also rewrites the inside of string literals and '
           'comments' % what, {'expr': core.norm(n)}, line=n.lineno,
@@ -628,6 +628,20 @@ def check(model, rep, tier):
               line=fi.node.lineno,
               witness='two functions with equal code objects (same layout in two '
               'files) and different defaults / decorators')
+
+
+def _param_free(fi, node):
+  """text of node with the function's parameters called by position (the key of
+  a finding must not depend on how a parameter is spelled)"""
+  import copy
+  ps = {p: 'param%d' % (i + 1) for i, p in enumerate(fi.params(skip_self=False))}
+
+  class R(ast.NodeTransformer):
+    def visit_Name(self, x):
+      if x.id in ps:
+        return ast.copy_location(ast.Name(id=ps[x.id], ctx=x.ctx), x)
+      return x
+  return core.norm(R().visit(copy.deepcopy(node)))
 
 
 def _guards(fn, target):
